@@ -192,7 +192,7 @@ theorem startFile_fresh_cur (c : Cfg) (e : Env) (s : St) (hf : Fresh c s) :
     simp only [startPre_log] at hen
     obtain ⟨h1, h2, h3⟩ := hf en hen
     exact ⟨h1, fun k hk => Nat.le_trans (h2 k hk) (startSeq_ge c s false), h3⟩
-  · simpa [CurOk, startFile] using hc
+  · simp [CurOk, startFile]
 
 /-- what a file held before this life wrote to it -/
 def preOf (c : Cfg) (existing : List (FName × Bytes)) (f : FName) : Bytes :=
